@@ -651,6 +651,21 @@ class E3(object):
         s = dict(w.store)
         dropped = set()
         counters = lp['counters']
+        # candidate loop invariants `x <= len` for the lengths being iterated over: kept for a loop-modified local only if
+        # the value arriving at this back edge satisfies them (the entry value is checked where the loop is entered, the
+        # body is re-analysed from the abstracted head: an inductive argument, nothing is invented)
+        iter_lens = []
+        for (d_, l_), val_ in w.store.items():
+            if d_ == depth and val_[0] == 'iterv':
+                iter_lens += [x for x in val_[1] if L(x) is not None]
+        bounded = {}
+        for l in lp['mod_locals']:
+            v_ = w.store.get((depth, l))
+            if v_ is None or fn.body['locals'][l]['ty'].get('k') != 'int' or L(v_) is None:
+                continue
+            keep = [B for B in iter_lens if self.prove(w, fm.le(L(v_), L(B)))]
+            if keep:
+                bounded[l] = keep
         for l in lp['mod_locals']:
             cell = (depth, l)
             if cell not in s:
@@ -719,6 +734,10 @@ class E3(object):
             w2 = w2.with_st(st)
         if inv_holds:
             w2 = self.add(w2, *invariant_facts(I, me0, w2.store[(-1, 0)]))
+        for l, Bs in bounded.items():
+            nv = w2.store.get((depth, l))
+            if nv is not None and L(nv) is not None:
+                w2 = self.add(w2, *[fm.le(L(nv), L(B)) for B in Bs])
         # relational counter lemma: an at-most-once counter never exceeds an exactly-once counter; a follower never
         # exceeds the counter it copies (all are 0 before the loop and only grow)
         rel = []
@@ -874,6 +893,14 @@ class E3(object):
             return [(w, ('iterv', (ln,) if ln is not None else ()))]
         if name == 'rev' and args and args[0][0] == 'iterv':
             return [(w, args[0])]
+        if name in ('take_while', 'filter', 'copied', 'cloned', 'skip_while', 'inspect') and args and args[0][0] == 'iterv' \
+                and tr == 'core::iter::traits::iterator::Iterator':
+            return [(w, args[0])]         # these only drop elements: the bounds of what they iterate over stay valid
+        if name == 'enumerate' and args and args[0][0] == 'iterv' and tr == 'core::iter::traits::iterator::Iterator':
+            return [(w, ('iterv', args[0][1], 'enum'))]
+        if name == 'count' and args and args[0][0] == 'iterv' and tr == 'core::iter::traits::iterator::Iterator':
+            w2, a = self.new_atom(w, 'count', ci)
+            return [(self.add(w2, *[fm.le(fm.lin_atom(a), L(x)) for x in args[0][1] if L(x) is not None]), ('sym', a))]
         if name == 'zip' and len(args) == 2 and args[0][0] == 'iterv' and args[1][0] == 'iterv':
             return [(w, ('iterv', args[0][1] + args[1][1]))]
         if name in ('position', 'rposition') and args:
@@ -909,7 +936,24 @@ class E3(object):
             if lens is not None:
                 ws = self.counter_facts(I, w, fn, ci, lens, True)
                 wn = self.counter_facts(I, w, fn, ci, lens, False)
-                return [(ws, some(TOP)), (wn, none())]
+                item = TOP
+                if len(itv) > 2 and itv[2] == 'enum':
+                    # `enumerate()`: the position of the element, strictly below every length iterated over
+                    ws, ia = self.new_atom(ws, 'position', ci)
+                    ws = self.add(ws, *[fm.lt(fm.lin_atom(ia), L(x)) for x in lens if L(x) is not None])
+                    # counter lemma, relational form: a counter that is 0 before the loop and steps by at most one per
+                    # iteration is at most the number of completed iterations, which is the position `enumerate` hands out
+                    info_ = cfg_of(fn)
+                    for h_, l_ in info_['loops'].items():
+                        if ci.bb in l_['body']:
+                            for c_ in l_['counters']:
+                                cv = w.store.get((ci.depth, c_))
+                                if cv is not None and L(cv) is not None:
+                                    f_ = fm.le(L(cv), fm.lin_atom(ia))
+                                    if self.feasible(ws, [f_]):
+                                        ws = self.add(ws, f_)
+                    item = ('tuple', (('sym', ia), TOP))
+                return [(ws, some(item)), (wn, none())]
             return None
         # ---- copies
         if p == 'core::slice::<impl [T]>::copy_within' and len(args) == 3:
